@@ -5,6 +5,7 @@ import M3d.Lemmas.SdfNormals
 import M3d.Lemmas.SdfMisc
 import M3d.Lemmas.SdfProfile
 import M3d.Lemmas.SdfTri
+import M3d.Lemmas.SdfTriFull
 import Mathlib.Analysis.Real.Sqrt
 import Mathlib.Algebra.Order.Field.Rat
 import Mathlib.Tactic.NormNum
@@ -134,10 +135,8 @@ edges have positive length).
   it is the closest point of the *whole plane* of the triangle, hence of the triangle.
 * Otherwise the returned point lies on an edge and no point of any of the three edges is closer.
 
-(Full statement, not mechanised: in the second case no point of the *triangle* is closer either — when the
-orthogonal projection of `c` falls outside the triangle, the segment from it to any point of the triangle crosses
-an edge at a point that is at least as close.) -/
-theorem triangle_closest_optimal_partial {E : Env K} (hE : E.Exact) (t0 t1 t2 c : V3 K)
+(`triangle_closest_optimal` below lifts the second case to the whole triangle.) -/
+theorem triangle_closest_regions {E : Env K} (hE : E.Exact) (t0 t1 t2 c : V3 K)
     (hdet : (M3.ofColumns (t1.sub t0) (t2.sub t0) (triNormal E t0 t1 t2)).det ≠ 0)
     (h01 : 0 < (t1.sub t0).normSq) (h12 : 0 < (t2.sub t1).normSq) (h20 : 0 < (t0.sub t2).normSq) :
     (triInside (triComponents E t0 t1 t2 c) = true →
@@ -168,6 +167,35 @@ theorem triangle_closest_optimal_partial {E : Env K} (hE : E.Exact) (t0 t1 t2 c 
       unfold triClosest; simp only [hout, Bool.false_eq_true, if_false]
     rw [hcl]
     exact triEdgeClosest_optimal hE t0 t1 t2 c h01 h12 h20
+
+/-- **3-D `Triangle.Closest` is the projection onto the triangle** (non-degenerate triangle): the returned point
+is a point `t0 + a v1 + b v2` of the triangle (`a, b ≥ 0`, `a + b ≤ 1`) and no point of the triangle is closer to
+`c`.  (Edge region: when the orthogonal projection of `c` onto the plane falls outside the triangle, the segment
+from it to any point of the triangle crosses an edge at a point that is at least as close.) -/
+theorem triangle_closest_optimal {E : Env K} (hE : E.Exact) (t0 t1 t2 c : V3 K)
+    (hdet : (M3.ofColumns (t1.sub t0) (t2.sub t0) (triNormal E t0 t1 t2)).det ≠ 0)
+    (h01 : 0 < (t1.sub t0).normSq) (h12 : 0 < (t2.sub t1).normSq) (h20 : 0 < (t0.sub t2).normSq) :
+    (∃ a b, InTri a b ∧ triClosest E t0 t1 t2 c = triPoint t0 t1 t2 a b) ∧
+    ∀ a' b', InTri a' b' → (triClosest E t0 t1 t2 c).sqDist c ≤ (triPoint t0 t1 t2 a' b').sqDist c := by
+  obtain ⟨hreg1, hreg2⟩ := triangle_closest_regions hE t0 t1 t2 c hdet h01 h12 h20
+  by_cases hin : triInside (triComponents E t0 t1 t2 c) = true
+  · obtain ⟨hm, ho⟩ := hreg1 hin
+    refine ⟨hm, fun a' b' _ => ?_⟩
+    rw [V3.sqDist_comm, V3.sqDist_comm _ c]; exact ho a' b'
+  · have hout : triInside (triComponents E t0 t1 t2 c) = false := by simpa using hin
+    obtain ⟨⟨t, ht0, ht1, hm⟩, ho⟩ := hreg2 hout
+    constructor
+    · rcases hm with h | h | h
+      · exact ⟨t, 0, ⟨ht0, le_rfl, by linarith⟩, by rw [h, ((triPoint_edges t0 t1 t2 t 0).1 rfl)]⟩
+      · exact ⟨1 - t, t, ⟨by linarith, ht0, by linarith⟩, by rw [h, ((triPoint_edges t0 t1 t2 (1 - t) t).2.2 (by ring))]⟩
+      · refine ⟨0, 1 - t, ⟨le_rfl, by linarith, by linarith⟩, ?_⟩
+        rw [h, ((triPoint_edges t0 t1 t2 0 (1 - t)).2.1 rfl)]; congr 1; ring
+    · intro a' b' hin'
+      obtain ⟨o1, o2⟩ := triNormal_orth E t0 t1 t2
+      have hnot : ¬ InTri (triComponents E t0 t1 t2 c).x (triComponents E t0 t1 t2 c).y := by
+        rw [← triInside_iff]; simpa using hin
+      exact edge_optimal_imp_triangle_optimal t0 t1 t2 (triNormal E t0 t1 t2) c _ _ _ _ o1 o2
+        (triComponents_decomp E t0 t1 t2 c hdet) hnot ho a' b' hin'
 
 /-! ## Capsule -/
 
